@@ -117,3 +117,13 @@ Proof. revert i; induction l as [|x l IH]; intros [|i]; cbn; auto. Qed.
 
 (* Z <-> nat helpers for the case encodings *)
 Definition zlen {A} (l : list A) : Z := Z.of_nat (length l).
+
+(* release bookkeeping *)
+Lemma releases_app t u : releases (t ++ u) = releases t ++ releases u.
+Proof. unfold releases. now rewrite filter_app, map_app. Qed.
+
+Lemma releases_drops l : releases (map EDrop l) = l.
+Proof. unfold releases. induction l as [|x l IH]; cbn; [reflexivity|]. now rewrite IH. Qed.
+
+Lemma releases_moved l : releases (map EMove l) = l.
+Proof. unfold releases. induction l as [|x l IH]; cbn; [reflexivity|]. now rewrite IH. Qed.
